@@ -5,7 +5,11 @@ Sub-checks
            classes with attributes / keyword-only / arity-changing / argument-transforming constructors,
            GlomError subclasses of the same kinds, user subclasses of glom's own error classes with the
            inherited and with their own constructors, classes whose instances refuse attribute assignment
-           (frozen dataclasses, raising __setattr__), BaseException subclasses) and glom-detected failures
+           (frozen dataclasses, raising __setattr__), a class whose __setattr__ derives a second attribute from an
+           argument, BaseException subclasses), glom-detected failures, and failing T / Path steps whose cause has a class
+           of its own (T[::0] -> ValueError, T ** 400 -> OverflowError, Decimal % 0 -> InvalidOperation, '%(k)s' % {} ->
+           KeyError, 1['b'] -> TypeError, T / 0 -> ZeroDivisionError, 'zz' on a list -> ValueError): the PathAccessError
+           that reports the step is also an instance of that class, default / skip_exc match either
            x wrapper x default in {absent, object, None, T} x skip_exc in {absent, the class, a base,
            an unrelated class, a tuple, ()} x glom_debug in {False, True}
   deep     generated: the same fault planted at a random depth (<= 4) of nested dict / list / tuple /
@@ -20,6 +24,7 @@ Sub-checks
 """
 import itertools
 import dataclasses
+import decimal
 
 from hypothesis import strategies as st
 
@@ -29,19 +34,26 @@ from glom import (T, Spec, Coalesce, Call, Invoke, Pipe, GlomError, PathAccessEr
                   PathDeleteError, Match, Check, Sum, Assign, Delete, Iter, Path, S)
 from glom.grouping import Group
 
-from ..runner import Sub, Mismatch
+from ..runner import Sub, Mismatch, HarnessBug
 from .. import targets as tg
 
 import re
 ADDR = re.compile(r' at 0x[0-9a-f]+')
 
 PROPERTY = 'C04'
-RULE = ('one fault site per case: a probe raising an instance from a 51-class catalogue, or a spec that makes glom itself fail '
-        'with each documented error; nested at depth 0-4 in dict/list/tuple/Pipe/Spec/Call/Invoke/Coalesce(non-catching); '
+RULE = ('one fault site per case: a probe raising an instance from a 52-class catalogue, or a spec that makes glom itself fail '
+        'with each documented error, or a single T / Path step that fails in plain Python with ValueError / OverflowError / '
+        'decimal.InvalidOperation / KeyError / TypeError / ZeroDivisionError (reported as a PathAccessError that must also be one of '
+        'that class); nested at depth 0-4 in dict/list/tuple/Pipe/Spec/Call/Invoke/Coalesce(non-catching); '
         'or inside a sub-spec that an extension spec / a callable given S evaluates in the live scope at any chain step; '
         'x default x skip_exc x glom_debug. Depth <= 1 is enumerated completely. '
         'Non-trivial = fault depth >= 2, or a non-builtin class, or a non-empty keyword set.')
 ASSUMPTIONS = [
+    'a failing T / Path step: "the exception originally raised" is the error the same operation raises in plain Python; glom '
+    'reports the step as PathAccessError(that error, path, position) (C02), so the error leaving glom() is a PathAccessError AND '
+    'an instance of that error\'s class, and an effective skip_exc that names either of the two replaces it by the default',
+    'an attribute that the class\'s constructor derives from its args alone (UDerived.double) is part of "rebuilt from its args": '
+    'it equals what type(e)(*e.args) has; other attributes outside args stay unasserted (DESIGN.md section 6)',
     '"can be rebuilt from its args": type(e)(*e.args) succeeds and has the same args',
     'exceptions raised by registered accessors inside a path step are PathAccessErrors by C01 and are not fault sites here',
     'BaseException subclasses that are not Exceptions propagate as the same object unless skip_exc names them',
@@ -253,6 +265,26 @@ class UNoSetattr(Exception):
 SETATTR_REFUSING = ['GFrozen', 'GFrozenPath', 'GNoSetattr', 'GNoSetattrT', 'UFrozen', 'UNoSetattr']
 
 
+# -- a class that keeps an attribute in step with an argument through its __setattr__ (validating / normalising /
+#    derived-value setters).  Attributes outside args are not promised by the statement, but "rebuilt from its args" is:
+#    what the class's own constructor derives from the args alone is the same on every instance built from those args
+
+class UDerived(Exception):
+    def __init__(self, n):
+        Exception.__init__(self, n)
+        self.n = n
+
+    def __setattr__(self, k, v):
+        Exception.__setattr__(self, k, v)
+        if k == 'n':
+            Exception.__setattr__(self, 'double', 2 * v)
+
+
+# name -> the attributes its constructor derives from the args alone
+ARGS_DERIVED = {'UDerived': ('n', 'double')}
+_MISSING = ['missing']
+
+
 class Unrelated(Exception):
     pass
 
@@ -309,6 +341,7 @@ CATALOGUE = {
     'GNoSetattrT': lambda: GNoSetattrT('read-only glom error'),
     'UFrozen': lambda: UFrozen(5),
     'UNoSetattr': lambda: UNoSetattr('read-only error', 2),
+    'UDerived': lambda: UDerived(4),
 }
 
 # glom-detected failures: name -> (target recipe, spec factory, documented class)
@@ -326,6 +359,33 @@ DETECTED = {
     'PathDeleteError': (lambda: {}, lambda: Delete('a'), PathDeleteError),
     'TypeErrorBadSpec': (lambda: 1, lambda: 3.5, TypeError),      # not a spec at all
 }
+
+
+# glom-detected failures of ONE T / Path step, whose cause is an error of a class of its own: the step is an operation of
+# plain Python on the target, and "the class of the exception originally raised" is the class Python raises for it.
+# name -> (target, spec, the same operation in plain Python, position of the failing step).  glom reports a failing step
+# as a PathAccessError (the documented subtype, C02) which carries that error: the error that leaves glom() must be BOTH -
+# `except ValueError` around glom(t, T[::0]) and skip_exc=ValueError keep working - and default / skip_exc see both
+TSTEP = {
+    'TStepSliceValueError': (lambda: [1, 2], lambda: T[::0], lambda t: t[::0], 0),
+    'TStepPowOverflowError': (lambda: 10.0, lambda: T ** 400, lambda t: t ** 400, 0),
+    'TStepModInvalidOperation': (lambda: decimal.Decimal(7), lambda: T % 0, lambda t: t % 0, 0),
+    'TStepFormatKeyError': (lambda: {'s': '%(k)s'}, lambda: T['s'] % {}, lambda t: t['s'] % {}, 1),
+    'TStepItemTypeError': (lambda: {'a': 1}, lambda: T['a']['b'], lambda t: t['a']['b'], 1),
+    'TStepDivZeroDivisionError': (lambda: 7, lambda: T / 0, lambda t: t / 0, 0),
+    # a string path on a list: the segment is the index, converted with int() ("invalid literal for int()")
+    'PathIndexValueError': (lambda: [1, 2], lambda: 'zz', lambda t: t[int('zz')], 0),
+}
+
+
+def tstep_original(name):
+    """the error plain Python raises for the operation (a harness error if it raises none)"""
+    tfac, sfac, ref, idx = TSTEP[name]
+    try:
+        ref(tfac())
+    except Exception as e:
+        return e
+    raise HarnessBug('TSTEP %s: the plain-Python operation does not fail' % name)
 
 
 class Site(object):
@@ -425,8 +485,10 @@ def rebuildable(e):
     return c.args == e.args
 
 
-def judge(where, kw, orig, outcome, marker, detected_cls=None):
-    """compare the observed outcome of glom(target, spec, **kw) with the statement"""
+def judge(where, kw, orig, outcome, marker, detected_cls=None, tstep=None):
+    """compare the observed outcome of glom(target, spec, **kw) with the statement.
+    tstep=<position>: the fault is a failing T / Path step; `orig` is the error plain Python raises for the operation and
+    the error at its origin is the PathAccessError carrying it, which is an instance of both classes"""
     default_given = 'default' in kw
     skip_given = 'skip_exc' in kw
     if skip_given:
@@ -437,6 +499,8 @@ def judge(where, kw, orig, outcome, marker, detected_cls=None):
         eff = ()
     eff_default = kw.get('default', None)
     swallowed = bool(eff) and isinstance(orig, eff) if not isinstance(eff, tuple) else (len(eff) > 0 and isinstance(orig, eff))
+    if tstep is not None and not swallowed and eff != ():
+        swallowed = issubclass(PathAccessError, eff)
     if swallowed:
         if outcome[0] != 'ok':
             raise Mismatch('default-not-returned', '%s: %r matches skip_exc=%r, expected the default, got %s: %r'
@@ -453,7 +517,8 @@ def judge(where, kw, orig, outcome, marker, detected_cls=None):
         if e is not orig:
             raise Mismatch('baseexception-not-propagated', '%s: %r must propagate as the same object, got %r' % (where, orig, e))
         return 'propagated'
-    if kw.get('glom_debug'):
+    if kw.get('glom_debug') and tstep is None:
+        # (a failing step: the PathAccessError glom raises for it is the original object; judged like without glom_debug)
         if e is not orig:
             raise Mismatch('debug-not-original', '%s: glom_debug=True must propagate the original object %r, got %r (%s)'
                            % (where, orig, e, type(e).__name__))
@@ -464,7 +529,16 @@ def judge(where, kw, orig, outcome, marker, detected_cls=None):
         raise Mismatch('class-downgraded' if isinstance(orig, type(e)) else 'class-lost',
                        '%s: raised %r (%s) is not an instance of the original class %s'
                        % (where, e, type(e).__name__, type(orig).__name__))
-    same_args = (e.args == orig.args) if detected_cls is None else (ADDR.sub('', repr(e.args)) == ADDR.sub('', repr(orig.args)))
+    if tstep is not None:
+        # the args of a PathAccessError are documented: (the error of the operation, the path, the position of the step)
+        if not isinstance(e, PathAccessError):
+            raise Mismatch('wrong-documented-class', '%s: expected a PathAccessError carrying %r, got %s'
+                           % (where, orig, type(e).__name__))
+        if len(e.args) != 3 or type(e.args[0]) is not type(orig) or e.args[0].args != orig.args or e.args[2] != tstep:
+            raise Mismatch('args-changed', '%s: expected PathAccessError(%r, <path>, %d), got args %r' % (where, orig, tstep, e.args))
+        same_args = True
+    else:
+        same_args = (e.args == orig.args) if detected_cls is None else (ADDR.sub('', repr(e.args)) == ADDR.sub('', repr(orig.args)))
     if not same_args:
         raise Mismatch('args-changed', '%s: original args %r, raised args %r' % (where, orig.args, e.args))
     if detected_cls is not None:
@@ -473,6 +547,13 @@ def judge(where, kw, orig, outcome, marker, detected_cls=None):
     if rebuildable(orig) and not isinstance(e, GlomError):
         raise Mismatch('not-a-glomerror', '%s: %r can be rebuilt from its args but the raised %s is no GlomError'
                        % (where, orig, type(e).__name__))
+    for attr in ARGS_DERIVED.get(type(orig).__name__, ()):
+        # reference: the rebuild the statement speaks of, done in plain Python
+        want = getattr(type(orig)(*orig.args), attr)
+        if getattr(e, attr, _MISSING) != want:
+            raise Mismatch('args-derived-attr-lost', '%s: %s(*%r).%s is %r; on the raised %s it is %s'
+                           % (where, type(orig).__name__, orig.args, attr, want, type(e).__name__,
+                              repr(getattr(e, attr)) if hasattr(e, attr) else 'missing'))
     try:
         text = str(e)
     except Exception as e2:
@@ -491,6 +572,13 @@ def run_case(name, wrappers, default, skip, debug, build=None):
         target = {'a': 1}
         exc_type = type(CATALOGUE[name]())
         detected_cls = None
+    elif name in TSTEP:
+        tfac, sfac, ref, tstep_idx = TSTEP[name]
+        spec = sfac()
+        target = tfac()
+        site = None
+        detected_cls = PathAccessError
+        exc_type = type(tstep_original(name))         # skip_exc names the class Python raises for the operation
     else:
         tfac, sfac, detected_cls = DETECTED[name]
         spec = sfac()
@@ -515,6 +603,9 @@ def run_case(name, wrappers, default, skip, debug, build=None):
         for lv in leaving:
             judge(where + ' [nested call]', {}, orig, ('err', lv), marker)
             orig = lv
+    elif name in TSTEP:
+        # the original is what the same operation raises in plain Python
+        return judge(where, kw, tstep_original(name), outcome, marker, detected_cls, tstep=tstep_idx)
     else:
         # glom-detected: the original is what propagates under glom_debug; obtain it with a second run
         try:
@@ -543,14 +634,21 @@ def _rewrap(spec, wrappers, name):
 
 
 def class_labels(name):
-    """the catalogue classes that are generated on purpose: user subclasses of glom's own error classes, and classes whose
-    instances refuse attribute assignment"""
+    """the catalogue classes that are generated on purpose: user subclasses of glom's own error classes, classes whose
+    instances refuse attribute assignment, and failing T / Path steps that carry an error of a class of its own"""
     labs = []
+    if name in TSTEP:
+        labs += ['tstep-carried', 'tstep-' + type(tstep_original(name)).__name__]
     if name in GLOM_SUBCLASSES or name == 'GFrozenPath':
         labs.append('cls-glom-subclass')
     if name in SETATTR_REFUSING:
         labs.append('cls-setattr-refusing')
+    if name in ARGS_DERIVED:
+        labs.append('cls-args-derived-attr')
     return labs
+
+
+ALL_NAMES = sorted(CATALOGUE) + sorted(DETECTED) + sorted(TSTEP)
 
 
 def pep479(name, wrappers):
@@ -559,7 +657,7 @@ def pep479(name, wrappers):
 
 
 def enum_matrix(tier):
-    names = sorted(CATALOGUE) + sorted(DETECTED)
+    names = ALL_NAMES
     for name in names:
         for w in WRAPPERS:
             if pep479(name, [w]):
@@ -572,7 +670,7 @@ def check_case(recipe, ctx):
     name = recipe['name']
     res = run_case(name, recipe['wrappers'], recipe['default'], recipe['skip'], recipe['debug'])
     ctx.label('outcome-' + res, 'depth-%d' % min(len([w for w in recipe['wrappers'] if w != 'none']), 4),
-              'detected' if name in DETECTED else 'injected')
+              'detected' if name in DETECTED or name in TSTEP else 'injected')
     ctx.label(*class_labels(name))
     builtin = name in CATALOGUE and type(CATALOGUE[name]()).__module__ == 'builtins'
     ctx.nontrivial(len(recipe['wrappers']) >= 2 or not builtin or recipe['default'] != 'absent' or recipe['skip'] != 'absent')
@@ -580,7 +678,7 @@ def check_case(recipe, ctx):
 
 
 def gen_deep(draw):
-    names = sorted(CATALOGUE) + sorted(DETECTED)
+    names = ALL_NAMES
     n = draw(st.integers(2, 4))
     name = draw(st.sampled_from(names))
     return {'name': name,
@@ -772,7 +870,7 @@ EXT_KW = list(itertools.product(DEFAULTS, SKIPS, [False, False, True]))
 
 
 def gen_extension(draw):
-    names = sorted(CATALOGUE) + sorted(DETECTED)
+    names = ALL_NAMES
     name = draw(st.sampled_from(names))
     wr = [[w] for w in WRAPPERS[1:] if not pep479(name, [w])]
     some = [[]] * (2 * len(wr)) + wr            # no wrapper in two of three draws
@@ -792,7 +890,7 @@ def check_extension(recipe, ctx):
     res = run_case(name, None, recipe['default'], recipe['skip'], recipe['debug'],
                    build=lambda spec, leaving: build_extension(recipe, spec, leaving))
     later = ext_later(recipe)
-    ctx.label('outcome-' + res, 'detected' if name in DETECTED else 'injected', 'layers-%d' % len(recipe['layers']))
+    ctx.label('outcome-' + res, 'detected' if name in DETECTED or name in TSTEP else 'injected', 'layers-%d' % len(recipe['layers']))
     ctx.label('ext-later' if any(later) else 'ext-first-or-alone')
     for layer, lat in zip(recipe['layers'], later):
         ctx.label('via-' + layer['via'], 'holder-' + layer['holder'])
@@ -1056,17 +1154,21 @@ def check_rebuild(recipe, ctx):
 
 
 CLS_FLOORS = {'cls-glom-subclass': 0.12, 'cls-setattr-refusing': 0.045}
+# the enumerated matrix holds every class the same number of times: exact shares (7 step sites of 71 names; 1 class of 71)
+MATRIX_FLOORS = dict(CLS_FLOORS, **{'tstep-carried': 0.055, 'tstep-ValueError': 0.015, 'tstep-OverflowError': 0.008,
+                                    'tstep-InvalidOperation': 0.008, 'tstep-KeyError': 0.008, 'tstep-TypeError': 0.008,
+                                    'tstep-ZeroDivisionError': 0.008, 'cls-args-derived-attr': 0.008})
 
 SUBS = [
-    Sub('matrix', check_case, enum=enum_matrix, floors=dict(CLS_FLOORS)),
+    Sub('matrix', check_case, enum=enum_matrix, floors=MATRIX_FLOORS),
     Sub('deep', check_case, gen=gen_deep, quick=3000, thorough=15000,
-        floors=dict(CLS_FLOORS, **{'outcome-swallowed': 0.1, 'outcome-raised': 0.1, 'detected': 0.09})),
+        floors=dict(CLS_FLOORS, **{'outcome-swallowed': 0.1, 'outcome-raised': 0.1, 'detected': 0.09, 'tstep-carried': 0.05})),
     Sub('reentrant', check_reentrant, gen=gen_reentrant, quick=1500, thorough=6000, floors=dict(CLS_FLOORS)),
     Sub('extension', check_extension, gen=gen_extension, quick=1600, thorough=6000,
         floors={'flat-later': 0.2, 'chained-later': 0.12, 'ext-first-or-alone': 0.17, 'detected': 0.08, 'layers-2': 0.15,
                 'outcome-raised': 0.12, 'outcome-swallowed': 0.25, 'via-scope-glom': 0.1, 'via-spec-glom-scope': 0.25,
                 'via-spec-glom-scope-own': 0.12, 'via-spec-glomit': 0.12, 'holder-glomit': 0.3, 'holder-invoke-S': 0.14,
-                'holder-call-S': 0.14, 'cls-glom-subclass': 0.09, 'cls-setattr-refusing': 0.035}),
+                'holder-call-S': 0.14, 'cls-glom-subclass': 0.09, 'cls-setattr-refusing': 0.035, 'tstep-carried': 0.05}),
     Sub('samename', check_samename, gen=gen_samename, quick=400, thorough=2000),
     Sub('rebuild', check_rebuild, gen=gen_rebuild, quick=600, thorough=3000, floors={'rebuildable-after-unrebuildable': 0.1}),
     Sub('mutsite', check_mutsite, enum=enum_mutsite,
